@@ -929,29 +929,6 @@ def gen_cases(ctx):
             cases.append(("cancel-at-each-await", {"plans": pre + [last], "crash": {"how": "cancel-in", "after": len(pre), "at": ["w", j]}}))
         for j in range(len(last["script"]) + 1):
             cases.append(("cancel-at-each-await", {"plans": pre + [last], "crash": {"how": "cancel-in", "after": len(pre), "at": ["r", j]}}))
-    # 4. seeded histories of length 1..N with a crash point between exchanges / inside one / none
-    N = ctx.pick(8, 24)
-    n_hist = (3000 if ctx.widened else 900) if ctx.quick else 20000
-    for _ in range(n_hist):
-        n = rng.randint(1, N)
-        plans = []
-        for _ in range(n):
-            oc = rng.choice(OUTCOMES[:16] * 3 + ["positive"] * 20 + ["negative"] * 8)
-            plans.append(_plan(rng, K, rng.randrange(len(K)), oc, implicit=rng.random() < 0.85,
-                               yields=rng.choice([0, 0, 0, 1, 2])))
-        how = rng.choice(["none", "none", "raise", "cancel", "cancel-in", "fatal"])
-        crash = None
-        if how in ("raise", "cancel"):
-            crash = {"how": how, "after": rng.randint(0, n)}
-        elif how == "cancel-in":
-            k = rng.randrange(n)
-            p = plans[k]
-            at = rng.choice([["w", 0]] + [["r", j] for j in range(len(p["script"]) + 1)])
-            crash = {"how": "cancel-in", "after": k, "at": at}
-        elif how == "fatal":
-            k = rng.randrange(n)
-            plans[k] = _plan(rng, K, plans[k]["ki"], rng.choice(["raise-read", "raise-write"]), implicit=plans[k]["implicit"])
-        cases.append(("history", {"plans": plans, "crash": crash}))
     # 5. bursts: many exchanges without any yield, then disconnect at once (queue full at join)
     for _ in range(ctx.pick(10, 60)):
         n = rng.randint(20, ctx.pick(60, 300))
@@ -976,6 +953,29 @@ def gen_cases(ctx):
     for n in (1, 3, 20):
         plans = [_plan(rng, K, 10, "positive", tags=None) for _ in range(n)]
         cases.append(("cancel-during-disconnect", {"plans": plans, "crash": {"how": "cancel-join", "after": n}}))
+    # 4. (last: this is the part the time budget may cut) seeded histories of length 1..N with a crash point between exchanges / inside one / none
+    N = ctx.pick(8, 24)
+    n_hist = (3000 if ctx.widened else 900) if ctx.quick else 20000
+    for _ in range(n_hist):
+        n = rng.randint(1, N)
+        plans = []
+        for _ in range(n):
+            oc = rng.choice(OUTCOMES[:16] * 3 + ["positive"] * 20 + ["negative"] * 8)
+            plans.append(_plan(rng, K, rng.randrange(len(K)), oc, implicit=rng.random() < 0.85,
+                               yields=rng.choice([0, 0, 0, 1, 2])))
+        how = rng.choice(["none", "none", "raise", "cancel", "cancel-in", "fatal"])
+        crash = None
+        if how in ("raise", "cancel"):
+            crash = {"how": how, "after": rng.randint(0, n)}
+        elif how == "cancel-in":
+            k = rng.randrange(n)
+            p = plans[k]
+            at = rng.choice([["w", 0]] + [["r", j] for j in range(len(p["script"]) + 1)])
+            crash = {"how": "cancel-in", "after": k, "at": at}
+        elif how == "fatal":
+            k = rng.randrange(n)
+            plans[k] = _plan(rng, K, plans[k]["ki"], rng.choice(["raise-read", "raise-write"]), implicit=plans[k]["implicit"])
+        cases.append(("history", {"plans": plans, "crash": crash}))
     return cases
 
 
